@@ -26,9 +26,13 @@ type world struct {
 	slots []thor.Bytes32 // storage keys of uAddr the readers query
 	txs   []*tx.Transaction
 
-	trunk []*block.Block
-	mint  func(parent *block.Block, who int, com bool, txs []*tx.Transaction) *block.Block
-	late  int // length of the late branch that bft.Accepts has to refuse
+	poolTxs   tx.Transactions // what the node's pool offers when it packs (typed and legacy)
+	poolNext  int             // importer goroutine only
+	packAfter []int           // per stream position: 0 nothing, 1 pack an own block after it, 2 pack on a stale flow
+	tail      []*block.Block  // delivered after the quiescent query batch
+	trunk     []*block.Block
+	mint      func(parent *block.Block, who int, com bool, txs []*tx.Transaction) *block.Block
+	late      int // length of the late branch that bft.Accepts has to refuse
 
 	facts   map[thor.Bytes32]*bfact // read-only once the concurrent phase starts
 	order   []thor.Bytes32          // genesis, then first-stored order of the reference run
@@ -62,6 +66,8 @@ type refResult struct {
 	events     []string
 	transfers  []string
 	classes    map[thor.Bytes32]string // import outcome per stream block
+	justified  thor.Bytes32
+	tail       *refResult // the same after the tail was imported
 	quals      map[thor.Bytes32]uint32
 	everBest   map[thor.Bytes32]bool
 	finalities []thor.Bytes32          // successive finalized values
@@ -78,17 +84,23 @@ func must(err error) {
 // buildStream mints a block tree with transactions (VET and VTHO transfers, a contract with storage and events) on the
 // omniscient stack and fixes the delivery order: a trunk, siblings delivered at once or late, side branches of up to
 // three blocks that take over as best and lose again, across several epochs (E = 3).
-func buildStream(seed int64, blocks int) *world {
+func buildStream(seed int64, blocks int, pos bool) *world {
 	rng := rand.New(rand.NewSource(seed))
 	E := uint32(3)
-	net := sim.NewNet(sim.Options{Validators: 4, Nodes: 1, EpochLength: E, PoS: rng.Intn(3) == 0, ExtraAccts: 3})
+	net := sim.NewNet(sim.Options{Validators: 4, Nodes: 1, EpochLength: E, PoS: pos, ExtraAccts: 3})
 	w := &world{seed: seed, net: net, rng: rng, facts: map[thor.Bytes32]*bfact{}}
 	tag := net.God.Repo.ChainTag()
 	nonce := uint64(seed) << 20
 	build := func(parent *block.Block, from int, cl *tx.Clause) *tx.Transaction {
 		nonce++
-		t := tx.NewBuilder(tx.TypeLegacy).ChainTag(tag).BlockRef(tx.NewBlockRef(parent.Header().Number())).Expiration(1000).
-			Gas(1_000_000).GasPriceCoef(0).Nonce(nonce).Clause(cl).Build()
+		var t *tx.Transaction
+		if nonce%3 == 0 { // typed (dynamic fee) transaction
+			t = tx.NewBuilder(tx.TypeDynamicFee).ChainTag(tag).BlockRef(tx.NewBlockRef(parent.Header().Number())).Expiration(1000).
+				Gas(1_000_000).MaxFeePerGas(big.NewInt(1_000_000_000_000_000)).MaxPriorityFeePerGas(big.NewInt(int64(nonce % 1000))).Nonce(nonce).Clause(cl).Build()
+		} else {
+			t = tx.NewBuilder(tx.TypeLegacy).ChainTag(tag).BlockRef(tx.NewBlockRef(parent.Header().Number())).Expiration(1000).
+				Gas(1_000_000).GasPriceCoef(0).Nonce(nonce).Clause(cl).Build()
+		}
 		return tx.MustSign(t, net.Devs[from].PrivateKey)
 	}
 	// the contract is deployed by the very first transaction of the trunk
@@ -196,8 +208,47 @@ func buildStream(seed int64, blocks int) *world {
 		}
 	}
 	w.stream = append(w.stream, pendingSide...)
+	// what the node's own pool offers whenever it packs: long-lived typed and legacy transactions
+	for k := 0; k < 3*(len(w.stream)+8); k++ {
+		to := net.Devs[rng.Intn(7)].Address
+		cl := tx.NewClause(&to).WithValue(big.NewInt(int64(1 + rng.Intn(1000))))
+		if k%4 == 1 {
+			cl = tx.NewClause(&w.uAddr).WithData(sim.UCall(sim.OpStore, big.NewInt(int64(1+rng.Intn(6))), big.NewInt(int64(10+rng.Intn(5)))))
+		}
+		nonce++
+		b := tx.NewBuilder(tx.TypeLegacy).GasPriceCoef(0)
+		if k%2 == 0 {
+			b = tx.NewBuilder(tx.TypeDynamicFee).MaxFeePerGas(big.NewInt(1_000_000_000_000_000)).MaxPriorityFeePerGas(big.NewInt(int64(k)))
+		}
+		t := b.ChainTag(tag).BlockRef(tx.NewBlockRef(0)).Expiration(100000).Gas(1_000_000).Nonce(nonce).Clause(cl).Build()
+		w.poolTxs = append(w.poolTxs, tx.MustSign(t, net.Devs[4+k%3].PrivateKey))
+	}
+	// a tail of the trunk across two more epochs, delivered only after the quiescent query batch
+	last := trunk[len(trunk)-1]
+	for k := 0; k < 7; k++ {
+		num := last.Header().Number() + 1
+		b := mint(last, int(num)%3, true, someTxs(last, nil))
+		if b == nil {
+			break
+		}
+		w.tail = append(w.tail, b)
+		last = b
+	}
 	w.trunk, w.mint = trunk, mint
 	return w
+}
+
+// planPacking fixes (from the seed) after which stream positions the node packs a block of its own.
+func (w *world) planPacking() {
+	w.packAfter = make([]int, len(w.stream))
+	for i := range w.packAfter {
+		switch w.rng.Intn(9) {
+		case 0:
+			w.packAfter[i] = 1
+		case 1:
+			w.packAfter[i] = 2
+		}
+	}
 }
 
 // addLateBranch inserts, right after the stream position at which a scratch node first finalizes a non-genesis
